@@ -62,6 +62,11 @@ type Contract struct {
 	Line      int
 }
 
+// InlineOnly: the entry only asks for inlining (no clauses of its own); the body is verified at each call site.
+func (c *Contract) InlineOnly() bool {
+	return c.Inline && len(c.Requires) == 0 && len(c.Ensures) == 0 && len(c.Loops) == 0 && c.Decreases == nil
+}
+
 type ContractSet struct {
 	ByFunc map[string]*Contract
 	Order  []string
